@@ -22,6 +22,7 @@ RULE = ("many short runs (5-40 stored points): dimensions 2-6, ||L|| dt in [0.02
         "laboratory vs rotating frame with two or three rotating-wave blocks (non-equidistant block means), every fourth Hamiltonian complex Hermitian. distinct = (class, dim, method, Nref, form, RWA, dephasing type, state class, rounded generator); non-trivial iff the "
         "state moves by more than 100x the bound over the run (so that a wrong order or a wrong generator is visible).")
 RULE = RULE + " Round-6 workloads: the same StateVector object is propagated twice and the caller's storage inspected afterwards."
+RULE = RULE + " Round-7 workloads: dephasing rates of the PureDephasing object are changed (in place / assigned) between two runs of the same propagator."
 ASSUMPTIONS = ["the bound is ||rho_n - exact|| <= m M^2 loc (1+loc)^m ||rho_0||, loc = x^(L+1)/(L+1)! e^x, x = ||L||_2 dt, M = max_k ||expm(L dt)^k||_2 computed "
                "by the oracle; a better integrator than the Taylor polynomial would pass as well",
                "with a PureDephasing object the propagator multiplies by the exact decay factor after every refined sub-step (operator splitting): the reference for those runs is the same splitting with the exact sub-step exponential of the GKSL generator, so only the truncation of the expansion separates the two; the splitting error itself (first order in dt/Nref) is not judged",
